@@ -6,6 +6,9 @@ CONSTANTS
   Vias <- ViasGenPair
   MaxInject = 1
   Spoof = TRUE
+  Confs <- ConfsSw
+  Stores <- StoresNone
+  Ancs <- AncsTs
   RestoreAtTop = TRUE
 CONSTRAINTS GenPairQuick GenStop
 INVARIANTS EmitPair
